@@ -3,7 +3,7 @@
    The concrete step is Outcome.new_defs (plugin_outcome.go) on the votes of Observe.honest_votes (plugin_observation.go). *)
 From stdpp Require Import gmap.
 From DS Require Import Base RepoConstants StreamValue Outcome OutcomeCodec Observe ObservationCodec Converge ConvergeProofs ValidateProofs.
-From DS Require OutcomeEndToEnd ReportsNoPanic OutcomeRoundTrip NvE2E.
+From DS Require OutcomeEndToEnd ReportsNoPanic OutcomeRoundTrip NvE2E HistoryLifts.
 
 (* the two vote limits in /repo are equal and positive, so the property's bound ceil(max(#remove, #add-or-replace)/5) applies *)
 Example C14_gen_limits : rm_limit = vote_limit /\ (0 < vote_limit)%nat /\ vote_limit = 5%nat /\ chan_cap = 2000%nat.
@@ -13,6 +13,11 @@ Proof. repeat split; vm_compute; try reflexivity. lia. Qed.
 Theorem C14_cap_invariant : forall h f retired prev obs, (size prev <= chan_cap)%nat -> (size (new_defs h f retired prev obs) <= chan_cap)%nat.
 Proof. exact cap_invariant. Qed.
 Print Assumptions C14_cap_invariant.
+(* hence a round never yields more channel reports than the outcome holds channels - at most MaxOutcomeChannelDefinitionsLength,
+   which is the report count the plugin declares to libocr *)
+Theorem C14_reports_count_le_channels : forall cf seq o, (length (snd (reports_of cf seq o)) <= size (o_defs o))%nat.
+Proof. exact HistoryLifts.reports_count_le_channels. Qed.
+Print Assumptions C14_reports_count_le_channels.
 
 (* regardless of what at most f faulty observers vote, the only changes are those the correct nodes voted for *)
 Theorem C14_only_agreed_changes : forall h f rm up tobs prev k, round_ok f rm up tobs ->
